@@ -114,7 +114,6 @@ OffsetFind(cal, key) ==
 OffsetOthers == {}
 
 (* ---------------- case emission (spec -> impl) ---------------- *)
-Chars(id) == id   \* identifiers are passed to Cal.WithCalendar as plain strings in generated cases
 DayArgs(f) == [cal |-> f.cal, n |-> f.n, iso |-> IsoOf(f.n)]
 Numeric(f) == [ey |-> f.ey, year |-> f.year, month |-> f.month, mc |-> f.mc, day |-> f.day, doy |-> f.doy,
                dim |-> f.dim, diy |-> f.diy, miy |-> f.miy, leap |-> f.leap]
